@@ -10,12 +10,24 @@
 //! conversions, text, `Arbitrary`, `add`, `State::inc`). Where the library
 //! moves a serial number over a transport - the server's query reader raced
 //! against notifications, the client adopting End of Data - the octets are
-//! delivered in pieces: see `c16_wire.rs`.
+//! delivered in pieces: see `c16_wire.rs`. Where the library itself relates
+//! two serial numbers - the server while its source advances under an open
+//! connection, the idle client that is told of a new serial - the same
+//! advance / the same difference is placed at every edge of the number space
+//! and on pairs that are related by their octets rather than by their
+//! difference: see `c16_adv.rs` and `c16_api.rs`; the latter also walks
+//! through the public PDU API item by item.
 
 // Transport-level workloads live in `c16_wire.rs`; declared here so that
 // `lib.rs` needs no extra line.
 #[path = "c16_wire.rs"]
 mod wire;
+// The server over a source whose serial advances while a connection is open.
+#[path = "c16_adv.rs"]
+mod adv;
+// The public PDU API, item by item, and the idle client's reaction to Serial Notify.
+#[path = "c16_api.rs"]
+mod api;
 
 use crate::core::{hash2_of, Ctx, Stage, Tier};
 use rpki::rtr::state::{Serial, State};
@@ -753,6 +765,10 @@ pub fn run(ctx: &mut Ctx) {
     ctx.obs("consumer_rows", consumer_rows);
     // ---- serial numbers on a transport that delivers in pieces
     evals += wire::run(ctx);
+    // ---- the source advances while a connection is open (RFC 1982 inside the server)
+    evals += adv::run(ctx);
+    // ---- every door of the PDU API; the idle client and pairs with one difference
+    evals += api::run(ctx);
     ctx.evals(evals);
     ctx.sample("comparison", || json!({"a": 0xFFFF_FFFEu32, "d": 3, "b": 1, "expected": "Less", "observed": format!("{:?}", Serial::from(0xFFFF_FFFE).partial_cmp(&Serial::from(1)))}));
     ctx.sample("undefined", || json!({"a": 1, "d": 0x8000_0000u32, "expected": "None", "observed": format!("{:?}", Serial::from(1).partial_cmp(&Serial::from(0x8000_0001)))}));
